@@ -242,12 +242,19 @@ fn regression<F: Scalar>(p: &Params) {
     let lo = if m == M_MSLE { 0 } else { -b };
     let mut a = Array2::from_elem((n, c), F::lit(0.0));
     let mut t = Array2::from_elem((n, c), F::lit(0.0));
+    // sym < n: only the first `sym` rows are symbolic, the others are fixed integers of the domain (larger
+    // vectors than the solver could handle fully symbolic: code paths selected by the length)
+    let sym = p.u("sym", n).min(n);
+    let fixed = |i: usize, j: usize, k: i64| -> i64 {
+        let span = b - lo + 1;
+        lo + ((i as i64 * (7 + 2 * k) + j as i64 * 3 + k * 5) * 11 % span + span) % span
+    };
     for j in 0..c {
         for i in 0..n {
-            a[(i, j)] = int::<F>(&format!("pred{}_{}", i, j), lo, b);
+            a[(i, j)] = if i < sym { int::<F>(&format!("pred{}_{}", i, j), lo, b) } else { F::lit(fixed(i, j, 0).max(if m == M_MAPE { 1 } else { lo }) as f64) };
         }
         for i in 0..n {
-            t[(i, j)] = int::<F>(&format!("truth{}_{}", i, j), lo, b);
+            t[(i, j)] = if i < sym { int::<F>(&format!("truth{}_{}", i, j), lo, b) } else { F::lit(fixed(i, j, 1) as f64) };
         }
     }
     let nf = F::lit(n as f64);
